@@ -20,7 +20,8 @@ MANIFEST = dict(
          "(TraceExp01.tla).  The verdict comes from a deterministic quadrature of the real code over the first three "
          "generator outputs (about 6000 / 24000 points per axis): range [0,1) of every value, law of the rejection "
          "loop and total law against the high-precision target, draw budget for non-termination.  The law is checked "
-         "up to the stated discretisation (sup-distance 1/N for the loop, 3/N in total), not proved.",
+         "up to the stated discretisation (sup-distance 1/N for the loop, 3/N in total), not proved."
+         " Added after the seeded-change campaign: an end-to-end law test with a real generator (10^6 / 8*10^6 samples per rate, Dvoretzky-Kiefer-Wolfowitz radius) that also exercises long rejection runs, and probes of the generator words around the first-branch threshold 1/c1 for ~10000 rates (range [0,1)).",
     design_ref="DESIGN.md section 4, C16 (and 2.6)",
     note="level 'other': exhaustive on the TLC grid, quadrature (not proof) on the real code; assumes the sampler is a "
          "function of the generator outputs only and that a rejected pass restarts the loop afresh (checked "
